@@ -72,6 +72,7 @@ TraceInit ==
   /\ last = Lab(0, "init", "", "", "", TRUE, FALSE)
   /\ pre = [p \in Procs |-> [store |-> <<>>, cluster |-> <<>>]]
   /\ hist = <<>>
+  /\ kfg = {}
 
 TraceReset(e) ==
   /\ store' = [r \in Rev |-> NoRec]
@@ -83,6 +84,7 @@ TraceReset(e) ==
   /\ last' = Lab(0, "init", "", "", "", TRUE, FALSE)
   /\ pre' = [p \in Procs |-> [store |-> <<>>, cluster |-> <<>>]]
   /\ hist' = <<>>
+  /\ kfg' = {}
 
 TraceNext ==
   /\ l <= Len(Trace)
@@ -106,5 +108,6 @@ TraceAccepted ==
   IF d = Len(Trace) THEN TRUE
   ELSE Print(<<"TRACE-REJECTED matched-lines", d, "of", Len(Trace)>>, FALSE)
 
+TGuard(m) == TRUE
 TView == <<View, l>>
 =============================================================================
